@@ -183,15 +183,15 @@ theorem C04_bytes_sublist {P : Proto μ} {st : Bytes → Bool} (F : Framer P st)
   rw [← h, brun_s]
   exact Props.C04.C04_sublist cfg _
 
-/-- **Prefix — over the bytes** (histories without a late cancel, the known finding of `Props/C04.lean`): what the consumer was
-    handed is a prefix of the decodable application messages carried by all the bytes received. -/
-theorem C04_bytes_prefix_partial {P : Proto μ} {st : Bytes → Bool} (F : Framer P st) (num : μ → Nat) (cfg : Cfg)
-    (evs : List BEv) (hs : stable P st (bytesOf evs) = true) (hl : (brun P num cfg evs).s.lost = []) :
+/-- **Prefix — over the bytes** (every history: late cancels of receives no longer lose a message, `Props.C04.C04_prefix`): what
+    the consumer was handed is a prefix of the decodable application messages carried by all the bytes received. -/
+theorem C04_bytes_prefix {P : Proto μ} {st : Bytes → Bool} (F : Framer P st) (num : μ → Nat) (cfg : Cfg)
+    (evs : List BEv) (hs : stable P st (bytesOf evs) = true) :
     delivered (brun P num cfg evs).s.trace <+: (carried P (bytesOf evs)).map num := by
   have h := (C04_bytes_related F num cfg evs hs).2.2.1
   rw [← h]
-  rw [brun_s] at hl ⊢
-  exact Props.C04.C04_prefix_partial cfg _ hl
+  rw [brun_s]
+  exact Props.C04.C04_prefix cfg _
 
 /-- the same two statements about the MESSAGES (not their numbers): the delivered numbers name a subsequence / a prefix `ds` of
     the carried messages (for an injective `num` it is the only list they name) -/
@@ -200,10 +200,10 @@ theorem C04_bytes_sublist_msgs {P : Proto μ} {st : Bytes → Bool} (F : Framer 
     ∃ ds : List μ, List.Sublist ds (carried P (bytesOf evs)) ∧ delivered (brun P num cfg evs).s.trace = ds.map num :=
   List.sublist_map_iff.1 (C04_bytes_sublist F num cfg evs hs)
 
-theorem C04_bytes_prefix_partial_msgs {P : Proto μ} {st : Bytes → Bool} (F : Framer P st) (num : μ → Nat) (cfg : Cfg)
-    (evs : List BEv) (hs : stable P st (bytesOf evs) = true) (hl : (brun P num cfg evs).s.lost = []) :
+theorem C04_bytes_prefix_msgs {P : Proto μ} {st : Bytes → Bool} (F : Framer P st) (num : μ → Nat) (cfg : Cfg)
+    (evs : List BEv) (hs : stable P st (bytesOf evs) = true) :
     ∃ ds : List μ, ds <+: carried P (bytesOf evs) ∧ delivered (brun P num cfg evs).s.trace = ds.map num := by
-  have h := C04_bytes_prefix_partial F num cfg evs hs hl
+  have h := C04_bytes_prefix F num cfg evs hs
   refine ⟨(carried P (bytesOf evs)).take (delivered (brun P num cfg evs).s.trace).length, List.take_prefix _ _, ?_⟩
   rw [List.map_take]
   exact List.prefix_iff_eq_take.1 h
@@ -217,8 +217,8 @@ theorem C04_bytes_sublist_injective {P : Proto μ} {st : Bytes → Bool} (F : Fr
   rw [hds] at h2
   rw [(List.map_inj_right hinj).1 h2]; exact h1
 
-/-- **Conservation, over the bytes**: every message the byte-level reader handed on is, in order, gone for good (delivered, or
-    dropped by a late cancel), held for the pending receive, or still queued. -/
+/-- **Conservation, over the bytes**: every message the byte-level reader handed on is, in order, gone for good (delivered:
+    nothing is dropped, `Props.C04.C04_nothing_lost`), held for the pending receive, or still queued. -/
 theorem C04_bytes_flow {P : Proto μ} {st : Bytes → Bool} (F : Framer P st) (num : μ → Nat) (cfg : Cfg) (evs : List BEv)
     (hs : stable P st (bytesOf evs) = true) :
     (brun P num cfg evs).s.gone.map (·.1) ++ (brun P num cfg evs).s.vres.toList ++ (brun P num cfg evs).s.queue
@@ -231,10 +231,9 @@ theorem C04_bytes_soup_sublist (num : Soup.Pkt → Nat) (cfg : Cfg) (evs : List 
     List.Sublist (delivered (brun soupProto num cfg evs).s.trace) ((carried soupProto (bytesOf evs)).map num) :=
   C04_bytes_sublist soupFramer num cfg evs (soup_stable _)
 
-theorem C04_bytes_soup_prefix_partial (num : Soup.Pkt → Nat) (cfg : Cfg) (evs : List BEv)
-    (hl : (brun soupProto num cfg evs).s.lost = []) :
+theorem C04_bytes_soup_prefix (num : Soup.Pkt → Nat) (cfg : Cfg) (evs : List BEv) :
     delivered (brun soupProto num cfg evs).s.trace <+: (carried soupProto (bytesOf evs)).map num :=
-  C04_bytes_prefix_partial soupFramer num cfg evs (soup_stable _) hl
+  C04_bytes_prefix soupFramer num cfg evs (soup_stable _)
 
 /-- **FIX: every byte stream too** (since the repair 658ee1f), any dictionary, any field-level decoder -/
 theorem C04_bytes_fix_sublist (known : Bytes → Bool) (decode : Bytes → Except Err Unit) (num : Bytes → Nat) (cfg : Cfg)
@@ -243,11 +242,11 @@ theorem C04_bytes_fix_sublist (known : Bytes → Bool) (decode : Bytes → Excep
       ((carried (fixProtoD known decode) (bytesOf evs)).map num) :=
   C04_bytes_sublist (fixFramer known decode) num cfg evs (fix_stable _ _)
 
-theorem C04_bytes_fix_prefix_partial (known : Bytes → Bool) (decode : Bytes → Except Err Unit) (num : Bytes → Nat) (cfg : Cfg)
-    (evs : List BEv) (hl : (brun (fixProtoD known decode) num cfg evs).s.lost = []) :
+theorem C04_bytes_fix_prefix (known : Bytes → Bool) (decode : Bytes → Except Err Unit) (num : Bytes → Nat) (cfg : Cfg)
+    (evs : List BEv) :
     delivered (brun (fixProtoD known decode) num cfg evs).s.trace <+:
       (carried (fixProtoD known decode) (bytesOf evs)).map num :=
-  C04_bytes_prefix_partial (fixFramer known decode) num cfg evs (fix_stable _ _) hl
+  C04_bytes_prefix (fixFramer known decode) num cfg evs (fix_stable _ _)
 
 /-- the FIX refinement itself, unconditionally: related machines, wire = tokens of all bytes, reader output ≤ carried -/
 theorem C04_bytes_fix_related (known : Bytes → Bool) (decode : Bytes → Except Err Unit) (num : Bytes → Nat) (cfg : Cfg)
